@@ -151,8 +151,10 @@ def rule_barrier(ctx, R, path, who):
     acc = accumulator_analysis(F, b)
     n = 0
     if not acc:
-        ctx.fail(R, b, who + ':max-dist-accumulator', 'ANCHOR-MISSING: no local updated through a closure capture '
-                 '(running maximum distance)')
+        ctx.fail(R, b, who + ':max-dist-accumulator', 'no stream-wide running maximum distance is maintained (no local '
+                 'updated through a closure capture while the distance stream is filtered): vote weights are not '
+                 '"largest distance seen minus distance" over the whole stream (ANCHOR-MISSING if the engine was '
+                 'restructured)')
         return 0
     for local, d in acc.items():
         for wcb, wbb, wreads in d['writers']:
